@@ -115,7 +115,9 @@ std::map<IndexCombination4,std::vector<ComplexType> > TwoParticleGFContainer::co
         //    if (comm.rank() == sender) INFO("P" << comm.rank() << " 2pgf " << p << " " << chi.parts[p]->NonResonantTerms.size());
             boost::mpi::broadcast(comm, chi.parts[p]->NonResonantTerms, sender);
             boost::mpi::broadcast(comm, chi.parts[p]->ResonantTerms, sender);
-            if (!clearTerms) chi.parts[p]->Status = TwoParticleGFPart::Computed; // every rank now holds the terms of this part
+            unsigned int part_status = chi.parts[p]->Status; // receivers take over the sender's part status: Computed, unless its terms were cleared
+            boost::mpi::broadcast(comm, part_status, sender);
+            chi.parts[p]->Status = part_status;
             std::vector<ComplexType> freq_data;
             if (comm.rank() == sender) freq_data = storage[iter->first];
             boost::mpi::broadcast(comm, freq_data, sender);
